@@ -14,7 +14,7 @@ fi
 (cd $WT && /venv/bin/python setup.py build_ext --inplace -j16 > /tmp/ev_build_$TAG.log 2>&1) || { echo "MUTANT DOES NOT COMPILE"; tail -5 /tmp/ev_build_$TAG.log; /root/mut/rmwt.sh $WT; exit 3; }
 mkdir -p $EV
 rsync -a --delete --exclude .git --exclude replays --exclude seeded --exclude .work/repo_build.json "$D"/ $EV/
-grep -rl "/repo" $EV/harness $EV/setup.sh 2>/dev/null | xargs -r sed -i "s#/repo#$WT#g"
+grep -rl "/repo" $EV/harness $EV/setup.sh 2>/dev/null | xargs -r sed -i -E "s#/repo([^a-zA-Z0-9_]|$)#$WT\\1#g"
 cd $EV
 timeout 3000 env PYTHONPATH=/root/wtsite CHERAB_WT=$WT VERIF_SEED=${VERIF_SEED:-0} ./check $P --tier $TIER > /tmp/ev_out_$TAG.log 2>&1
 RC=$?
